@@ -143,6 +143,8 @@ def run(ck):
     ck.assumptions += ['float32 weights are compared with the real-valued model within 5e-6 + 2e-5*w',
                        'cut-off comparisons within 4e-6 of the keep fraction are accepted either way (as the property states)']
     ck.check_theorems()
+    from harness import softops
+    softops.check_translation(ck)
     rng = np.random.default_rng(ck.seed + 909)
     d = 2
     # ---------------- (a) cache ----------------
